@@ -50,14 +50,17 @@ Defs == <<
   \* 7: S : a ; B : b                 good unless strict (B unreachable)
   [terms |-> T2, rules |-> <<R(11, <<1>>, 0, 0, <<>>), R(12, <<2>>, 0, 0, <<>>)>>],
   \* 8: translation index out of range
-  [terms |-> T2, rules |-> <<R(11, <<1>>, 1, 1, <<2>>)>>]
+  [terms |-> T2, rules |-> <<R(11, <<1>>, 1, 1, <<2>>)>>],
+  \* 9: good, with 170 terminals: the symbol tables of the object grow while it is being defined
+  [terms |-> [i \in 1..170 |-> [n |-> 100 + i, c |-> 100 + i]],
+   rules |-> <<R(11, <<101, 11, 102>>, 1, 1, <<1, 2>>), R(11, <<270>>, 0, 0, <<1>>), R(11, <<12>>, 0, 0, <<1>>), R(12, <<103, 104>>, 2, 1, <<2>>)>>]
 >>
 DefIds == DOMAIN Defs
 BadText == 0          \* a description with a syntax error
 
 (* inputs: sequences of token "names"; 8 and 9 are codes that no definition declares (the harness
    maps 8 to a code lying between declared codes and 9 to one outside their range) *)
-InputPool == {<<>>, <<1>>, <<1, 2>>, <<1, 1>>, <<1, 1, 2, 2>>, <<2>>, <<1, 9>>, <<9>>, <<1, 1, 1>>, <<1, 8>>, <<8>>}
+InputPool == {<<>>, <<1>>, <<1, 2>>, <<1, 1>>, <<1, 1, 2, 2>>, <<2>>, <<1, 9>>, <<9>>, <<1, 1, 1>>, <<1, 8>>, <<8>>, <<101, 270, 102>>, <<103, 104>>}
 
 AllocModes == {"ff", "fn", "nn", "nf"}   \* (alloc, free): f = given, n = NULL
 
